@@ -1895,12 +1895,28 @@ class SequenceOfAndSetOfBase(base.ConstructedAsn1Type):
             When idx > len(self)
         """
         if isinstance(idx, slice):
-            indices = tuple(range(len(self)))
-            startIdx = indices and indices[idx][0] or 0
-            for subIdx, subValue in enumerate(value):
-                self.setComponentByPosition(
-                    startIdx + subIdx, subValue, verifyConstraints,
+            # Python list semantics: the members selected by the slice are
+            # replaced by the new ones, whatever their number
+            if self._componentValues is noValue:
+                components = []
+
+            else:
+                components = [self._componentValues.get(subIdx, noValue)
+                              for subIdx in range(len(self))]
+
+            components[idx] = list(value)
+
+            # all or nothing: members are validated on a scratch object
+            scratch = self.clone()
+            scratch.clear()
+
+            for subIdx, subValue in enumerate(components):
+                scratch.setComponentByPosition(
+                    subIdx, subValue, verifyConstraints,
                     matchTags, matchConstraints)
+
+            self._componentValues = scratch._componentValues
+
             return self
 
         if idx < 0:
